@@ -599,6 +599,10 @@ class Exec:
             return [(Opaque(f"{o.what}.{attr}"), q)]
         if isinstance(o, Dyn):
             return [(Opaque(f"{o.name}.{attr}"), q)]
+        if hasattr(o, "getattr_sym"):
+            r = o.getattr_sym(attr)
+            if r is not None:
+                return [(r, q)]
         self.unsupported(node, f"attribute of {o!r}")
 
     _prop_cache = {}
